@@ -440,6 +440,11 @@ func slowGenBankOriginParser(length int) pars.Parser {
 				}
 			}
 
+			if len(bytes.TrimSpace(q[extent:])) != 0 {
+				pos.Byte += extent
+				return pars.NewError("expected end of line", pos)
+			}
+
 			offset += copy(p[offset:], q[:extent])
 			p[offset] = '\n'
 			offset++
@@ -458,6 +463,10 @@ func makeGenbankOriginParser(length int) genbankSubparser {
 			}
 			pars.Line(state, result)
 
+			// From here on this is the ORIGIN block: an error is an error in the
+			// record, not a reason to try reading ORIGIN as an unknown field.
+			state.Clear()
+
 			if err := state.Request(toOriginLength(length)); err != nil {
 				return pars.NewError("not enough bytes in state", state.Position())
 			}
@@ -465,15 +474,26 @@ func makeGenbankOriginParser(length int) genbankSubparser {
 			p := state.Buffer()
 			if validateOrigin(p, length, state.Position()) == nil {
 				state.Advance()
-				gb.Origin = &Origin{p, false}
-				return nil
+			} else {
+				parser := slowGenBankOriginParser(length)
+				if err := parser(state, result); err != nil {
+					return err
+				}
+				p = result.Token
 			}
 
-			parser := slowGenBankOriginParser(length)
-			if err := parser(state, result); err != nil {
-				return err
+			// The block must end here: another numbered line means that it
+			// holds more residues than LOCUS declares.
+			state.Push()
+			c, err := pars.Next(state)
+			for err == nil && c == spaceByte {
+				state.Advance()
+				c, err = pars.Next(state)
 			}
-			p = result.Token
+			state.Pop()
+			if err == nil && '0' <= c && c <= '9' {
+				return pars.NewError("sequence is longer than the length declared in LOCUS", state.Position())
+			}
 
 			gb.Origin = &Origin{p, false}
 			return nil
